@@ -36,7 +36,7 @@ Proof. now destruct c. Qed.
 (* the configuration the function starts from: a fresh one, or a copy of the caller's *)
 Definition src_cfg (h : heap) (o : sslopts) : tlscfg :=
   match o_config o with
-  | None => mkCfg (negb (o_hv o)) [] None 0
+  | None => mkCfg (negb (o_hv o)) [] None 0 0
   | Some ca => get_cfg h ca
   end.
 
@@ -505,3 +505,23 @@ Qed.
 (* readable forms used by the statements in Props.v *)
 Definition is_none {A} (o : option A) : bool := match o with None => true | Some _ => false end.
 Definition is_empty_ca (o : option (list Z)) : bool := match o with Some [] => true | _ => false end.
+
+(* ---- the other fields of tls.Config: carried along, never consulted ------------------------------ *)
+Lemma work_cfg_other h o f : c_other (work_cfg h o f) = c_other (src_cfg h o).
+Proof. unfold work_cfg. now destruct (src_cfg h o). Qed.
+
+Lemma setup_ok_other h o f h' a :
+  setup_tls h o f = (h', SOk a) -> c_other (get_cfg h' a) = c_other (src_cfg h o).
+Proof.
+  intros H. apply setup_ok_result in H. destruct H as (_ & _ & Hc & _).
+  rewrite Hc. destruct (o_cert_set o || o_key_set o); cbn [with_ncerts c_other]; apply work_cfg_other.
+Qed.
+
+Lemma dial_other h o f addr h' a :
+  dial_config h (Some o) f addr = (h', DTls a) -> c_other (get_cfg h' a) = c_other (src_cfg h o).
+Proof.
+  intros H. apply dial_tls_inv in H. destruct H as (h1 & a1 & Hs & Hf).
+  rewrite <- (setup_ok_other _ _ _ _ _ Hs).
+  apply for_addr_result in Hf. destruct Hf as (Hc & _). rewrite Hc.
+  destruct (negb (c_insecure (get_cfg h1 a1)) && is_nil (c_name (get_cfg h1 a1))); reflexivity.
+Qed.
